@@ -222,6 +222,8 @@ func C16(run *ev.Run, tier string) map[string]interface{} {
 	if !thorough {
 		opKinds = []string{"Scan-filter", "PutItem-condition", "UpdateItem-update"}
 	}
+	// requests that carry placeholders but no expression at all: every supplied placeholder is unused
+	opKinds = append(opKinds, "Scan-none", "PutItem-none", "DeleteItem-none")
 	for _, d := range Drivers {
 		for _, kind := range opKinds {
 			for _, usedN := range subsets(nameSet) {
@@ -229,6 +231,9 @@ func C16(run *ev.Run, tier string) map[string]interface{} {
 					for _, supN := range subsets(nameSet) {
 						for _, supV := range subsets(valueSet) {
 							d, kind, usedN, usedV, supN, supV := d, kind, usedN, usedV, supN, supV
+							if strings.HasSuffix(kind, "-none") && len(usedN)+len(usedV) > 0 {
+								continue
+							}
 							add(func() {
 								var parts []string
 								for _, n := range usedN {
@@ -266,6 +271,12 @@ func C16(run *ev.Run, tier string) map[string]interface{} {
 									kc := "h = :hk"
 									vs := mergeVals(values, map[string]val.V{":hk": val.S("k")})
 									r = impl.Do(drv.Op{K: drv.KQuery, Table: "tab", KeyStr: &kc, FiltStr: &cond, Names: names, Values: vs})
+								case "Scan-none":
+									r = impl.Do(drv.Op{K: drv.KScan, Table: "tab", Names: names, Values: values})
+								case "PutItem-none":
+									r = impl.Do(drv.Op{K: drv.KPut, Table: "tab", Item: val.Item{"h": val.S("k"), "z": val.S("x")}, Names: names, Values: values})
+								case "DeleteItem-none":
+									r = impl.Do(drv.Op{K: drv.KDel, Table: "tab", Key: val.Item{"h": val.S("k")}, Names: names, Values: values})
 								case "PutItem-condition":
 									r = impl.Do(drv.Op{K: drv.KPut, Table: "tab", Item: val.Item{"h": val.S("k"), "z": val.S("x")}, CondStr: &cond, Names: names, Values: values})
 								case "DeleteItem-condition":
